@@ -304,12 +304,8 @@ def fpToUBV(rm, fp, size):
     try:
         rounding_mode = rm.pydecimal_equivalent_rounding_mode()
         val = int(Decimal(fp.value).to_integral_value(rounding_mode))
-        assert val & ((1 << size) - 1) == val, (
-            f"Rounding produced values outside the BV range! rounding {fp.value} with rounding mode {rm} produced {val}"
-        )
-        if val < 0:
-            val = (1 << size) + val
-        return BVV(val, size)
+        # the conversion of a negative or too large value is unspecified: it wraps, as in fpToSBV
+        return BVV(val & ((1 << size) - 1), size)
 
     except (ValueError, OverflowError):
         return BVV(0, size)
